@@ -46,7 +46,7 @@ NextOrd(e) == IF HasOrder(e) /\ Len(e.r) > 0 THEN <<e.bi, e.r[Len(e.r)].ri>>
 Step ==
     /\ l <= N
     /\ l' = l + 1
-    /\ ord' = IF Rec[l].e = "cmd" /\ ~dead THEN NextOrd(Rec[l]) ELSE ord
+    /\ ord' = IF Rec[l].e = "reset" THEN <<0, 0>> ELSE IF Rec[l].e = "cmd" /\ ~dead THEN NextOrd(Rec[l]) ELSE ord
     /\ pair' = IF Rec[l].e = "final" /\ Rec[l].side = "a" THEN <<Rec[l]>> ELSE pair
     /\ LET e == Rec[l] IN
        IF e.e = "reset" THEN
@@ -61,6 +61,12 @@ Step ==
             ELSE cov' = Count(cov, "pair.final") /\ UNCHANGED <<cs, dead, viol, hist, noted>>
        ELSE IF dead THEN UNCHANGED <<cs, dead, viol, cov, hist, noted>>
        ELSE IF e.e = "tick" THEN cs' = TickAll(cs, e.to) /\ UNCHANGED <<dead, viol, cov, hist, noted>>
+       ELSE IF e.e = "hang" THEN
+            \* the command did not return (watchdog of the driver): C16, and C14's "eviction always terminates"
+            /\ viol' = Append(viol, [line |-> l, hist |-> hist,
+                                     tags |-> {"C16", "C10"} \cup (IF (CHOOSE c \in cs : TRUE).policy = "random" THEN {"C14"} ELSE {}),
+                                     rule |-> "command.did.not.return", rules |-> {}, op |-> e.op, key |-> e.k, now |-> 0])
+            /\ dead' = TRUE /\ UNCHANGED <<cs, cov, hist, noted>>
        ELSE IF e.e = "stray" \/ ~OrderOK(e) THEN
             /\ viol' = Append(viol, [line |-> l, hist |-> hist, tags |-> {"C12", "C11"},
                                      rule |-> IF e.e = "stray" THEN "stray.response" ELSE "out.of.order",
